@@ -3,7 +3,7 @@ type and xsi:type substitute, looked up by qname / by fields / by xsi:type)."""
 
 from dataclasses import dataclass, field
 from decimal import Decimal
-from typing import Dict, List, Optional
+from typing import Dict, List, Optional, Union
 
 NS_I = "urn:vf:c14:i"
 NS_W = "urn:vf:c14:w"
@@ -82,6 +82,48 @@ class Mix:  # element declared before a compound field and a wildcard (document 
     price: Optional[Price] = field(default=None, metadata={"type": "Element"})
     rest: List[object] = field(default_factory=list, metadata={"type": "Wildcard", "namespace": "##other"})
     last: Optional[int] = field(default=None, metadata={"type": "Element"})
+
+
+@dataclass
+class Cat:
+    lives: Optional[int] = field(default=None, metadata={"type": "Element"})
+    name: Optional[str] = field(default=None, metadata={"type": "Element"})
+
+
+@dataclass
+class Dog:
+    bark: Optional[str] = field(default=None, metadata={"type": "Element"})
+    name: Optional[str] = field(default=None, metadata={"type": "Element"})
+
+
+@dataclass
+class Pet:  # union of classes: the parsers try every candidate in strict mode and keep the best
+    class Meta:
+        name = "pet"
+
+    animal: Optional[Union[Cat, Dog]] = field(default=None, metadata={"type": "Element"})
+    tag: Optional[int] = field(default=None, metadata={"type": "Element"})
+
+
+class Celsius(float):  # a subclass of a supported type that has no converter of its own
+    pass
+
+
+@dataclass
+class Reading:
+    class Meta:
+        name = "reading"
+
+    value: Optional[float] = field(default=None, metadata={"type": "Element"})
+    unit: Optional[str] = field(default=None, metadata={"type": "Attribute"})
+
+
+@dataclass
+class TypedReading:  # not a supported field type: building the metadata is an error, with or without history
+    class Meta:
+        name = "typedReading"
+
+    value: Optional[Celsius] = field(default=None, metadata={"type": "Element"})
 
 
 # --- the known-finding trigger (kept out of the main operation pool) -------------------------
